@@ -124,11 +124,18 @@ func textEq(a, b Text) (*T, bool) {
 			return tTrue, true
 		}
 	}
-	// An atom compared with a concrete non-empty string: an uninterpreted fact.
+	// An atom compared with a concrete non-empty string: an uninterpreted fact
+	// (false outright when the atom has a declared finite domain without it).
 	if len(a.Frags) == 1 && a.Frags[0].Kind == FAtom && bok {
+		if !inAtomDomain(a.Frags[0].Atom, bs) {
+			return tFalse, true
+		}
 		return mkVar(fmt.Sprintf("eq!%s!%q", a.Frags[0].Atom, bs), SBool), true
 	}
 	if len(b.Frags) == 1 && b.Frags[0].Kind == FAtom && aok {
+		if !inAtomDomain(b.Frags[0].Atom, as) {
+			return tFalse, true
+		}
 		return mkVar(fmt.Sprintf("eq!%s!%q", b.Frags[0].Atom, as), SBool), true
 	}
 	if len(a.Frags) == 1 && a.Frags[0].Kind == FAtom && len(b.Frags) == 1 && b.Frags[0].Kind == FAtom {
@@ -223,4 +230,20 @@ func formatArg(s *State, verb byte, arg Val, format string) Text {
 	}
 	unsupported("fmt: argument of kind %T for %%%c in %q", arg, verb, format)
 	return Text{}
+}
+
+// atomDomains: finite domains declared for result atoms (`shape resultK = ...`).
+var atomDomains = map[string][]string{}
+
+func inAtomDomain(atomName, s string) bool {
+	d, ok := atomDomains[atomName]
+	if !ok {
+		return true
+	}
+	for _, x := range d {
+		if x == s {
+			return true
+		}
+	}
+	return false
 }
